@@ -24,7 +24,7 @@ import numpy as np
 
 from harness import common as C
 
-IMPORTS = "From FDAV Require Import Base.Num Base.Vec Base.Cmp Model.NoiseSparse Tie.C20."
+IMPORTS = "From Coq Require Import NArith.\nFrom FDAV Require Import Base.Num Base.Vec Base.Cmp Model.NoiseSparse Tie.C20."
 
 RULE = ("simulators: KarhunenLoeve univariate 1-D (fourier/legendre/wiener/bsplines), multivariate 1-D, univariate 2-D and "
         "all-2-D multivariate (unsupported: natural failure), mixed 2-D+1-D multivariate, Brownian, Datasets, seeded and unseeded; "
@@ -528,7 +528,7 @@ def operations_level(rep, rng, specs, params, quick, dd):
 # ---------------------------------------------------------------------------
 # level 2: exhaustive fault injection
 # ---------------------------------------------------------------------------
-def run_with_fault(sim, args, k):
+def run_with_fault(sim, args, k, target=None):
     """Run add_noise_and_sparsify; the k-th call event inside it raises Fault (k=None: no fault).
     Returns dict(outcome, events, fired=info about the faulted call)."""
     cls = type(sim)
@@ -573,14 +573,21 @@ def run_with_fault(sim, args, k):
         st["pn"][ph] = j + 1
         occ = st["per"].get(name, 0) + 1
         st["per"][name] = occ
-        if k is not None and st["n"] == k:
-            st["fired"] = {"event": k, "callable": name, "occurrence": occ, "phase": ph, "index_in_phase": j,
+        if (k is not None and st["n"] == k) or (target is not None and (name, occ) == tuple(target)):
+            st["fired"] = {"event": st["n"], "callable": name, "occurrence": occ, "phase": ph, "index_in_phase": j,
                            "before_noise": st["pn"]["noise"] == 0 and ph == "outer"}
             st["armed"] = False
             st["done"] = True
             raise Fault(f"injected at call #{occ} of {name}")
 
     outcome = "ok"
+    old_hook = sys.unraisablehook
+    swallowed = []
+
+    def hook(u):       # an exception raised while the interpreter finalises a generator cannot propagate: it lands here
+        if u.exc_type is Fault:
+            swallowed.append(True)
+    sys.unraisablehook = hook
     sys.setprofile(prof)
     try:
         sim.add_noise_and_sparsify(*args)
@@ -590,7 +597,8 @@ def run_with_fault(sim, args, k):
         outcome = "error:" + type(e).__name__
     finally:
         sys.setprofile(None)
-    return {"outcome": outcome, "events": st["n"], "fired": st["fired"], "pn": dict(st["pn"])}
+        sys.unraisablehook = old_hook
+    return {"outcome": outcome, "events": st["n"], "fired": st["fired"], "pn": dict(st["pn"]), "swallowed": bool(swallowed)}
 
 
 def tok(x):
@@ -618,10 +626,14 @@ def fault_level(rep, rng, quick, dd):
     run = C.CoqRun("C20", IMPORTS, shard=4)
     todo = []
     arglist = [(0.25, 0.0, 0.0), (1.0, 0.8, 0.1)] if quick else [(0.25, 0.0, 0.0), (1.0, 0.8, 0.1), (0.0, 0.5, 0.5)]
-    for spec in base:
+    for si, spec in enumerate(base):
         two_d = spec_is_2d(spec)
         for with_old in (True, False):
-            for args in arglist[: (2 if with_old else 1)]:
+            if quick:       # quick tier: both parameter sets on the first two simulators, fresh simulators for 1-D and 2-D once
+                n_args = (2 if si < 2 else 1) if with_old else (1 if si in (0, 2) else 0)
+            else:
+                n_args = len(arglist) if with_old else 1
+            for args in arglist[:n_args]:
                 sim = build_sim(spec)
                 d0, snap0 = sim.data, snapshot(sim.data)
                 old_noisy = old_sparse = None
@@ -644,8 +656,8 @@ def fault_level(rep, rng, quick, dd):
                 def observed():
                     nz = getattr(sim, "noisy_data", None)
                     sp = getattr(sim, "sparse_data", None)
-                    tn = None if nz is None else (2 if nz is old_noisy else 101)
-                    ts = None if sp is None else (3 if sp is old_sparse else 1101)
+                    tn = None if nz is None else (2 if nz is old_noisy else 11)
+                    ts = None if sp is None else (3 if sp is old_sparse else 31)
                     if sim.data is d0 and same_snapshot(snapshot(d0), snap0):
                         td = 1
                     elif sim.data is nz and nz is not None:
@@ -672,7 +684,7 @@ def fault_level(rep, rng, quick, dd):
                     dd.violation("op-raised", f"add_noise_and_sparsify{args} failed without injected fault: {r0['outcome']}",
                                  {"spec": spec, "args": list(args)})
                 if td != 1:
-                    how = "the noisy data (defect model combined_nofinally, F13a)" if td == 101 else "another object / modified data"
+                    how = "the noisy data (defect model combined_nofinally, F13a)" if td == 11 else "another object / modified data"
                     dd.violation("fault-natural" if nat_raised else "fault-none",
                                  f"add_noise_and_sparsify{args} {'raised ' + r0['outcome'][6:] + ' (natural failure)' if nat_raised else 'returned'}"
                                  f" and simulator.data is afterwards {how}",
@@ -689,6 +701,13 @@ def fault_level(rep, rng, quick, dd):
                     if r["fired"] is None:
                         break
                     f = r["fired"]
+                    if r["swallowed"] and r["outcome"] != "fault":
+                        # not a fault point: the event was the finalisation of a generator, where the interpreter
+                        # discards exceptions (nothing can be raised to the caller from there)
+                        rep.extra["events_where_exceptions_cannot_propagate"] = \
+                            rep.extra.get("events_where_exceptions_cannot_propagate", 0) + 1
+                        k += 1
+                        continue
                     n_faults += 1
                     phases[f["phase"]] = phases.get(f["phase"], 0) + 1
                     callables.add(f["callable"])
@@ -697,7 +716,7 @@ def fault_level(rep, rng, quick, dd):
                         # the injected exception was swallowed or replaced
                         bad.append((f, f"outcome {r['outcome']} instead of the injected exception", td))
                     elif td != 1:
-                        bad.append((f, "simulator.data is the noisy data" if td == 101 else "simulator.data was replaced/modified", td))
+                        bad.append((f, "simulator.data is the noisy data" if td == 11 else "simulator.data was replaced/modified", td))
                     if f["phase"] == "noise":
                         km = f["index_in_phase"]
                     elif f["phase"] == "sparsify":
@@ -705,7 +724,7 @@ def fault_level(rep, rng, quick, dd):
                     else:
                         km = 0 if f["before_noise"] else None
                     if km is not None and r["outcome"] == "fault":
-                        obs_terms.append(f"(Some {km}%nat, (true, tok_state {tok(td)} {tok(tn)} {tok(ts)}))")
+                        obs_terms.append(f"(Some {km}%N, (true, tok_state {tok(td)} {tok(tn)} {tok(ts)}))")
                     k += 1
                 rep.case(("fault-enum", repr(spec), args, with_old), kind=f"fault/enumeration{'-2d' if two_d else ''}",
                          sample={"spec": spec, "args": list(args), "faults_injected": n_faults, "by_phase": phases,
@@ -714,8 +733,8 @@ def fault_level(rep, rng, quick, dd):
                 rep.extra["fault_points_enumerated"] = rep.extra.get("fault_points_enumerated", 0) + n_faults
                 rep.extra.setdefault("fault_callables", set()).update(callables)
                 obs = "[" + "; ".join(obs_terms) + "]"
-                t1 = run.add(f"tok_check_all {C.blit(two_d)} {a}%nat {b}%nat {init} {obs}")
-                t2 = run.add(f"tok_check_all_nofinally {C.blit(two_d)} {a}%nat {b}%nat {init} {obs}")
+                t1 = run.add(f"tok_check_allN {C.blit(two_d)} {a}%N {b}%N {init} {obs}")
+                t2 = run.add(f"tok_check_all_nofinallyN {C.blit(two_d)} {a}%N {b}%N {init} {obs}")
                 todo.append((t1, t2, spec, args, with_old, bad, n_faults))
                 reset()
     res = run.run()
@@ -821,8 +840,8 @@ def replay_case(rep, replay, dd):
     if replay.get("fault") is not None or replay.get("op") == "add_noise_and_sparsify" and "failing_fault_points" in replay:
         sim = build_sim(spec)
         d0, snap0 = sim.data, snapshot(sim.data)
-        k = (replay.get("fault") or {}).get("event")
-        r = run_with_fault(sim, prm, k)
+        f = replay.get("fault") or {}
+        r = run_with_fault(sim, prm, None, target=(f["callable"], f["occurrence"]) if f else None)
         print("replay:", r["outcome"], r["fired"])
         if not untouched(sim, d0, snap0):
             dd.violation("fault-injected", f"replay: simulator.data not restored after {r['outcome']} ({r['fired']})", replay)
